@@ -345,6 +345,20 @@ def handle (req : Sexp) : Sexp :=
           | .error e => errOut e
       | none => bad
     | _, _, _, _, _ => bad
+  | .list [.atom "createresults", s, rt, co, tab, es] =>
+    match strict? s, rankType? rt, cutoff? co, table? tab, es.asList? with
+    | some s, some rt, some co, some tab, some es => match es.mapM entry? with
+      | some es =>
+        let lrt := rt == .lrt
+        if es.isEmpty then bad
+        else if lrt && !tableCovers tab (lrtPairs co (es.map (fun _ => 0)) (es.map (·.npar))) then
+          .list [.atom "err", .atom "missing-chi2"]
+        else if !lrt && (match co with | .two _ _ => true | _ => false) then bad
+        else match createResults s rt co (isfOf tab) es with
+          | .ok (rows, fin) => .list [.list (rows.map rowOut), Sexp.ofNat fin]
+          | .error e => errOut e
+      | none => bad
+    | _, _, _, _, _ => bad
   | .list [.atom "lrt-cutoff", tab, df, alpha] =>
     match table? tab, df.asInt?, ratS? alpha with
     | some tab, some df, some alpha =>
